@@ -176,6 +176,11 @@ def check_api(case, rec):
     ref = Ref.from_snapshot(before)
     what = case["what"]
     rec.cls("what:" + what)
+    # "...and nothing else": a table derived from this one earlier (here by
+    # re-ordering both axes to the order they already have) is not touched
+    sibling = t.sort_order(list(ref.obs), axis="observation").sort_order(
+        list(ref.samp), axis="sample")
+    sib_before = observe.snapshot(sibling)
     if what == "add":
         axis = case["axis"]
         ids = ref.ids(axis)
@@ -226,6 +231,12 @@ def check_api(case, rec):
         rec.nt(keys is not None and present and
                any(k not in KEYS for k in keys))
     after = observe.snapshot(t)
+    if observe.snapshot(sibling) != sib_before:
+        raise Violation("other-table-changed", "%s on one table changed a "
+                        "table derived from it earlier: %r -> %r" %
+                        (what, (sib_before["obs_md"], sib_before["samp_md"]),
+                         (observe.snapshot(sibling)["obs_md"],
+                          observe.snapshot(sibling)["samp_md"])))
 
     def bad(sub, msg):
         raise Violation(sub, "%s [%s %r; before %r]" %
